@@ -126,7 +126,7 @@ Proof.
       destruct (IH 0%nat false (attr_ws c :: acc) Hs) as [rb' [cr' E]].
       exists rb', cr'. rewrite E, rev_cons_app. reflexivity.
     + rewrite Eg. cbn [andb].
-      destruct (IH (if c =? c_rbr then Nat.min 2 (S rb) else 0%nat) false (c :: acc) Hs) as [rb' [cr' E]].
+      destruct (IH (bump c rb) false (c :: acc) Hs) as [rb' [cr' E]].
       exists rb', cr'. rewrite E, rev_cons_app. reflexivity.
 Qed.
 
@@ -152,7 +152,7 @@ Proof.
     + rewrite Eq. destruct (IH 0%nat false (attr_ws c :: acc) Hs Hp) as [rb' [cr' E]].
       exists rb', cr'. rewrite E, rev_cons_app. reflexivity.
     + rewrite Eg. cbn [andb].
-      destruct (IH (if c =? c_rbr then Nat.min 2 (S rb) else 0%nat) false (c :: acc) Hs Hp) as [rb' [cr' E]].
+      destruct (IH (bump c rb) false (c :: acc) Hs Hp) as [rb' [cr' E]].
       exists rb', cr'. rewrite E, rev_cons_app. reflexivity.
 Qed.
 
@@ -263,95 +263,32 @@ Definition cdata_end : str := [c_rbr; c_rbr; c_gt].
 Lemma fold_dead cx l : fold_left (step cx) l Dead = Dead.
 Proof. induction l; simpl; auto. Qed.
 
-Lemma fold_closed_text l acc : fold_left (step Text) l (Closed acc) = Closed acc \/ fold_left (step Text) l (Closed acc) = Dead.
-Proof. destruct l; [left; reflexivity|right]. cbn [fold_left step]. apply fold_dead. Qed.
-
-Lemma hex_value_bad c s : In c s -> hex_val c = None -> forall acc, hex_value s acc = None.
+(** in character data the sequence is an error, whatever stands before and after *)
+Theorem cdata_end_rejected a b rb cr acc :
+  fold_left (step Text) a start = Run (MNorm rb cr) acc ->
+  lex_text (a ++ cdata_end ++ b) = BrokenText.
 Proof.
-  induction s as [|d s IH]; intros Hin Hc acc; [destruct Hin|].
-  cbn [hex_value]. destruct Hin as [->|Hin].
-  - rewrite Hc. reflexivity.
-  - destruct (hex_val d); auto.
+  intros Ha. unfold lex_text. rewrite !fold_left_app, Ha.
+  assert (E : fold_left (step Text) cdata_end (Run (MNorm rb cr) acc) = Dead).
+  { unfold cdata_end. cbn [fold_left].
+    assert (E1 : step Text (Run (MNorm rb cr) acc) c_rbr = Run (MNorm (Nat.min 2 (S rb)) false) (c_rbr :: acc)).
+    { destruct cr; reflexivity. }
+    rewrite E1.
+    assert (E2 : step Text (Run (MNorm (Nat.min 2 (S rb)) false) (c_rbr :: acc)) c_rbr
+                 = Run (MNorm (Nat.min 2 (S (Nat.min 2 (S rb)))) false) (c_rbr :: c_rbr :: acc)) by reflexivity.
+    rewrite E2.
+    assert (E3 : (2 <=? Nat.min 2 (S (Nat.min 2 (S rb))))%nat = true) by (apply Nat.leb_le; lia).
+    cbn [step]. change (negb (is_xml_char c_gt)) with false. cbv iota.
+    change (c_gt =? c_amp) with false. change (c_gt =? c_lt) with false.
+    change (c_gt =? c_cr) with false. change (c_gt =? c_lf) with false. cbn [andb].
+    rewrite N.eqb_refl, E3. reflexivity. }
+  rewrite E, fold_dead. reflexivity.
 Qed.
 
-Lemma decode_ref_rbr nm : In c_rbr nm -> decode_ref nm = None.
-Proof.
-  intros Hin. destruct nm as [|h t]; [destruct Hin|].
-  unfold decode_ref. destruct (h =? c_hash) eqn:Eh.
-  - apply N.eqb_eq in Eh; subst h. destruct Hin as [Hin|Hin]; [discriminate Hin|].
-    destruct t as [|h2 t2]; [destruct Hin|].
-    destruct (h2 =? c_x) eqn:Ex.
-    + apply N.eqb_eq in Ex; subst h2. destruct Hin as [Hin|Hin]; [discriminate Hin|].
-      destruct t2 as [|h3 t3]; [destruct Hin|].
-      rewrite (hex_value_bad c_rbr (h3 :: t3) Hin eq_refl). reflexivity.
-    + assert (F : forallb is_digit (h2 :: t2) = false).
-      { apply not_true_is_false. intros F. rewrite forallb_forall in F. specialize (F _ Hin). discriminate F. }
-      rewrite F. reflexivity.
-  - assert (Hne : forall p, In c_rbr p -> False -> str_eqb (h :: t) p = false) by (intros; tauto).
-    destruct (str_eqb (h :: t) n_amp) eqn:E1.
-    { apply str_eqb_eq in E1. rewrite E1 in Hin. simpl in Hin. repeat (destruct Hin as [Hin|Hin]; [discriminate Hin|]). destruct Hin. }
-    destruct (str_eqb (h :: t) n_lt) eqn:E2.
-    { apply str_eqb_eq in E2. rewrite E2 in Hin. simpl in Hin. repeat (destruct Hin as [Hin|Hin]; [discriminate Hin|]). destruct Hin. }
-    destruct (str_eqb (h :: t) n_gt) eqn:E3.
-    { apply str_eqb_eq in E3. rewrite E3 in Hin. simpl in Hin. repeat (destruct Hin as [Hin|Hin]; [discriminate Hin|]). destruct Hin. }
-    destruct (str_eqb (h :: t) n_quot) eqn:E4.
-    { apply str_eqb_eq in E4. rewrite E4 in Hin. simpl in Hin. repeat (destruct Hin as [Hin|Hin]; [discriminate Hin|]). destruct Hin. }
-    destruct (str_eqb (h :: t) n_apos) eqn:E5.
-    { apply str_eqb_eq in E5. rewrite E5 in Hin. simpl in Hin. repeat (destruct Hin as [Hin|Hin]; [discriminate Hin|]). destruct Hin. }
-    reflexivity.
-Qed.
-
-(** inside a reference whose name already holds a right bracket nothing good can follow *)
-Lemma fold_ref_rbr cx l : forall nm acc, In c_rbr nm ->
-  (exists nm', fold_left (step cx) l (Run (MRef nm) acc) = Run (MRef nm') acc) \/
-  fold_left (step cx) l (Run (MRef nm) acc) = Dead.
-Proof.
-  induction l as [|c l IH]; intros nm acc Hin.
-  - left. exists nm. reflexivity.
-  - cbn [fold_left step]. destruct (c =? c_semi).
-    + rewrite decode_ref_rbr; [right; apply fold_dead|]. apply in_rev in Hin. exact Hin.
-    + apply IH. right. exact Hin.
-Qed.
-
-Definition is_broken_text (st : lst) : Prop :=
-  match st with Run (MNorm _ _) _ => False | _ => True end.
-
-Lemma lex_text_broken_iff s : is_broken_text (fold_left (step Text) s start) -> lex_text s = BrokenText.
-Proof. unfold lex_text. destruct (fold_left (step Text) s start) as [[rb cr|nm] acc|acc|]; simpl; tauto. Qed.
-
-Theorem cdata_end_rejected a b : lex_text (a ++ cdata_end ++ b) = BrokenText.
-Proof.
-  apply lex_text_broken_iff. rewrite !fold_left_app.
-  destruct (fold_left (step Text) a start) as [[rb cr|nm] acc|acc|].
-  - (* in character data: two brackets then the greater-than sign *)
-    assert (E : fold_left (step Text) cdata_end (Run (MNorm rb cr) acc) = Dead).
-    { unfold cdata_end. cbn [fold_left].
-      assert (E1 : exists rb1, step Text (Run (MNorm rb cr) acc) c_rbr = Run (MNorm rb1 false) (c_rbr :: acc)).
-      { cbn [step]. change (negb (is_xml_char c_rbr)) with false. cbv iota.
-        change (c_rbr =? c_amp) with false. change (c_rbr =? c_lt) with false.
-        change (c_rbr =? c_cr) with false. change (c_rbr =? c_lf) with false. cbn [andb].
-        change (c_rbr =? c_gt) with false. cbn [andb]. eexists. reflexivity. }
-      destruct E1 as [rb1 E1]. rewrite E1.
-      assert (E2 : step Text (Run (MNorm rb1 false) (c_rbr :: acc)) c_rbr
-                   = Run (MNorm (Nat.min 2 (S rb1)) false) (c_rbr :: c_rbr :: acc)) by reflexivity.
-      rewrite E2.
-      assert (E3 : (2 <=? Nat.min 2 (S rb1))%nat = true).
-      { apply Nat.leb_le. cbn [step] in E1. inversion E1. destruct rb; simpl; lia. }
-      cbn [step]. change (negb (is_xml_char c_gt)) with false. cbv iota.
-      change (c_gt =? c_amp) with false. change (c_gt =? c_lt) with false.
-      change (c_gt =? c_cr) with false. change (c_gt =? c_lf) with false. cbn [andb].
-      rewrite N.eqb_refl, E3. reflexivity. }
-    rewrite E, fold_dead. exact I.
-  - (* inside a reference *)
-    assert (E : fold_left (step Text) cdata_end (Run (MRef nm) acc)
-                = Run (MRef (c_gt :: c_rbr :: c_rbr :: nm)) acc) by reflexivity.
-    rewrite E.
-    destruct (fold_ref_rbr Text b (c_gt :: c_rbr :: c_rbr :: nm) acc) as [[nm' H]|H];
-      [right; left; reflexivity| |]; rewrite H; exact I.
-  - destruct (fold_closed_text (cdata_end ++ b) acc) as [H|H];
-      rewrite <- fold_left_app, H; exact I.
-  - rewrite !fold_dead. exact I.
-Qed.
+(** a CDATA section in element content is consumed: the text read back is not the text written *)
+Example cdata_section_consumed :
+  lex_text [97; 60; 33; 91; 67; 68; 65; 84; 65; 91; 120; 93; 93; 62; 98] = OneText [97; 120; 98].
+Proof. reflexivity. Qed.
 
 Lemma in_esc_char_gt c : In c_gt (esc_char c) -> False.
 Proof.
